@@ -14,4 +14,8 @@ for crate in sorted(os.listdir(os.path.join(V, "kani"))):
     e = dict(env, CARGO_TARGET_DIR=os.path.join(V, ".cache", "native-" + crate))
     r = subprocess.run(["cargo", "build", "--offline", "--bin", "replay"], cwd=d, env=e)
     ok = ok and r.returncode == 0
+e = dict(env, CARGO_TARGET_DIR=os.path.join(V, ".cache", "native-replay"))
+for prof in ([], ["--release"]):
+    r = subprocess.run(["cargo", "build", "--offline"] + prof, cwd=os.path.join(V, "replay"), env=e)
+    ok = ok and r.returncode == 0
 sys.exit(0 if ok else 1)
